@@ -12,6 +12,7 @@ MODEL_VO = ["theories/C06/Corr.vo"]
 ALLOWED_AXIOMS = []
 BASE = 1_700_000_000 * 10**9          # unix ns of relative time 0
 DENOMS = ["udenoma", "udenomb", "xdenomc"]
+PREFIX_DENOMS = ["gamm/pool/1", "gamm/pool/10", "xdenomc"]
 NACC = 4                              # accounts 1..3 lock; account 4 is a bystander (reward receiver, wrong sender)
 
 # ---------------------------------------------------------------------------------------------
@@ -121,6 +122,15 @@ DUR_POOLS = [
 ]
 
 
+def r_sample(r, n, k):
+    """k distinct numbers from 1..n"""
+    xs = list(range(1, n + 1))
+    out = []
+    for _ in range(min(k, n)):
+        out.append(xs.pop(r.below(len(xs))))
+    return out
+
+
 class Tracker:
     """the generator's own rough picture of the chain, used only to pick mostly-valid operations"""
 
@@ -197,12 +207,17 @@ class Tracker:
 def gen_case(r, tier, nops=None):
     durs = sorted(r.choice(DUR_POOLS))
     unit = r.choice(durs)
+    # one history in eight locks under many distinct durations, so that the accumulation sum-trees (fan-out 10) grow inner nodes
+    lockdurs = list(durs)
+    if r.chance(1, 8):
+        step = r.choice([1, 3, 10**9, 86400 * 10**9])
+        lockdurs = sorted(set(durs + [step * k + r.choice([0, 0, 1]) for k in r_sample(r, 40, r.range(12, 24))]))
     t0 = r.choice([1, 10, 10**9, r.range(1, 10**12)])
     rich = r.chance(3, 4)
     fund = [[(r.choice([0, 1, 50, 1000, 10**6, 10**12]) if not rich else r.choice([10**6, 10**9, 10**12])) for _ in range(3)] for _ in range(NACC)]
     force = [a for a in (1, 2, 3) if r.chance(1, 3)]
-    adurs = sorted(set([0] + [d + e for d in durs for e in (-1, 0, 1)]))
-    c = {"base": BASE, "t0": t0, "denoms": DENOMS, "nacc": NACC, "fund": fund, "force": force, "adurs": adurs, "durs": durs, "ops": []}
+    adurs = sorted(set([0] + [d + e for d in lockdurs for e in (-1, 0, 1)]))
+    c = {"base": BASE, "t0": t0, "denoms": DENOMS, "nacc": NACC, "fund": fund, "force": force, "adurs": adurs, "durs": durs, "lockdurs": lockdurs, "ops": []}
     tr = Tracker(c)
     if nops is None:
         nops = r.range(20, 80) if tier == "quick" else r.range(20, 120)
@@ -220,10 +235,10 @@ def gen_case(r, tier, nops=None):
             if ids and not malformed:
                 return r.choice(ids)
             return r.choice([0, tr.last + 1, r.range(1, max(1, tr.last))] + live)
-        if x < 22 or not live:
+        if x < (22 if len(lockdurs) == len(durs) else 40) or not live:
             a = r.range(1, 3)
-            n = r.range(1, 3)
-            d = r.choice(durs)
+            n = r.range(1, 3) if len(lockdurs) == len(durs) or r.chance(1, 4) else 1
+            d = r.choice(lockdurs)
             amt = r.choice([1, 2, 10, 999, r.range(1, 10**5)])
             if malformed:
                 amt, d = r.choice([(0, d), (amt, 0), (amt, -1), (10**13, d), (amt, d + 1)])
@@ -238,7 +253,7 @@ def gen_case(r, tier, nops=None):
             i_ = pick(nu)
             l = tr.locks.get(i_)
             a = l["owner"] if l and not malformed else r.range(1, 4)
-            bigger = [d for d in durs if l and d > l["dur"]]
+            bigger = [d for d in lockdurs if l and d > l["dur"]]
             d = r.choice(bigger) if bigger and not malformed else r.choice(durs + [0, (l["dur"] if l else 1), (l["dur"] + 1 if l else 2)])
             o = {"k": "extend", "o": a, "id": i_, "dur": d}
             if l:
@@ -298,7 +313,7 @@ def gen_case(r, tier, nops=None):
         now = tr.now
         if full:
             qd = [0]
-            for d in durs:
+            for d in durs + ([r.choice(lockdurs), r.choice(lockdurs)] if len(lockdurs) > len(durs) else []):
                 qd += [d, d + r.choice([-1, 1])]
             qt = [now, now + r.choice([-1, 1])]
             for e in sorted(set(tr.ends[-3:] + [l["end"] for l in tr.locks.values() if l["end"]]))[-4:]:
@@ -445,8 +460,17 @@ def check_state(c, ob):
         else:
             exp = [sum(l["amt"] for l in m)]
         if list(res) != exp:
-            v.append({"what": "%s(unlocking=%s, account=%d, denom=%d, duration=%d, time=%d) at block time %d returned %s, the lock table gives %s"
-                      % (name, u, a, n, d, t, ob["now"], list(res), exp), "rec": {"kind": "query", "fn": name}})
+            rec = {"kind": "query", "fn": name}
+            if kind == "ids" and 1 <= n <= nd:
+                # C06-F1: an iterator over a denomination also returns the locks of denominations that extend it (gamm/pool/1 -> gamm/pool/10)
+                extra = [i for i in res if i not in exp]
+                dq = c["denoms"][n - 1]
+                if extra and all(i in res for i in exp) and all(
+                        i in ob["locks"] and 1 <= ob["locks"][i]["denom"] <= nd and c["denoms"][ob["locks"][i]["denom"] - 1] != dq
+                        and c["denoms"][ob["locks"][i]["denom"] - 1].startswith(dq) for i in extra):
+                    rec["class"] = "denom_prefix_leak"
+            v.append({"what": "%s(unlocking=%s, account=%d, denom=%d '%s', duration=%d, time=%d) at block time %d returned %s, the lock table gives %s"
+                      % (name, u, a, n, c["denoms"][n - 1] if 1 <= n <= nd else "", d, t, ob["now"], list(res), exp), "rec": rec})
     return v
 
 
@@ -527,7 +551,7 @@ def oracle_case(c, obs):
             key = "%s:%d" % (o["k"], code)
             stats["err"][key] = stats["err"].get(key, 0) + 1
         prev = cur
-        if len(v) > 5:
+        if len([x for x in v if x["rec"].get("class") != "denom_prefix_leak"]) > 5 or len(v) > 400:
             break
     return v, stats
 
@@ -551,7 +575,14 @@ def _shard(args):
         for x in v:
             k = x.get("op_index", 0)
             x["impl_flat"] = o["flat"][k][:400]
-        out.append({"codes": o["codes"], "hs": o["hs"], "hs0": o["hs0"], "viol": v[:3], "stats": stats, "msgs": o.get("msgs")})
+        # keep the first violations, and one representative per (kind, fn, class)
+        keep, seen = [], set()
+        for x in v:
+            key = json.dumps(x["rec"], sort_keys=True)
+            if key not in seen or len(keep) < 3:
+                keep.append(x)
+            seen.add(key)
+        out.append({"codes": o["codes"], "hs": o["hs"], "hs0": o["hs0"], "viol": keep[:12], "stats": stats, "msgs": o.get("msgs")})
     return out
 
 
@@ -650,10 +681,21 @@ def run_cases(cases, model_ok, out, tag, tier="quick", per_file=8):
 def correspond(tier, seed, model_ok):
     out = Outcome()
     r = Rng(seed)
-    n = 320 if tier == "quick" else 6000
+    n = 320 if tier == "quick" else 4000
     cases = [gen_case(r.fork(i), tier) for i in range(n)]
     corpus = common.load_corpus(PROP)
     run_cases(corpus + cases, model_ok, out, "q", tier)
+    # a small stream with denominations one of which extends another (as gamm/pool/1 and gamm/pool/10 do on the chain): outside the
+    # model's scope (see ASSUMPTIONS), so implementation + oracle only
+    rp = Rng(seed + 31337)
+    pcases = []
+    for i in range(10 if tier == "quick" else 200):
+        c = gen_case(rp.fork(i), tier)
+        c["denoms"] = PREFIX_DENOMS
+        pcases.append(c)
+    run_cases(pcases, False, out, "p", tier)
+    out.model_ran = model_ok
+    out.distribution["prefix_denom_histories(oracle only)"] = len(pcases)
     out.rule = ("cases = histories of 20-%d lockup operations (lock / add-to-lock / extend / full and partial begin-unlock / begin-unlock-all / unlock / "
                 "withdraw-matured / end-block / set-reward-receiver / force-unlock / block-time advance) by 3 owners over 3 denominations and 4 durations, "
                 "about 1 in 12 deliberately malformed; non-trivial = at least one successful lock, one successful begin-unlock and one lock released "
